@@ -328,12 +328,14 @@ def case(arg):
         opts_on["outside_src"] = rng.random() < 0.4
         opts_on["linked_page_subdir"] = rng.random() < 0.4
         opts_on["force"] = rng.random() < 0.5
+        if placement in REFUSALS:
+            opts_on["force"] = seed % 2 == 1  # (the refusal is checked with and without `force` for every placement: main() gives both parities)
         opts_on["deep_media"] = rng.random() < 0.5
         opts_on["escaping_copy_subdir"] = rng.random() < 0.4
         opts_on["outside_subpage"] = rng.random() < 0.3
         opts_on["quiet"] = rng.random() < 0.4
         opts_on["html_template_dir"] = rng.random() < 0.3
-        opts_on["bad_preprocessor"] = mode == "plain" and rng.random() < 0.3
+        opts_on["bad_preprocessor"] = mode == "plain" and rng.random() < 0.3 and placement not in REFUSALS  # (a refusal case must reach the refusal)
         opts_on["graph_dir"] = [None, "sibling", "in_output", "absolute", "contains_sources", "under_empty_parent"][seed % 6]
         opts_on["lonely_sources"] = rng.random() < (0.6 if opts_on["graph_dir"] == "under_empty_parent" else 0.15)
         if opts_on["graph_dir"] and rng.random() < 0.8:
@@ -466,7 +468,7 @@ def main():
     for rep in range(6 if thorough else 2):
         for pl in PLACEMENTS + REFUSALS + BLOCKED + BLOCKED:
             i += 1
-            args.append((base + i, pl, "plain"))
+            args.append((base + i if pl not in REFUSALS else base + 5000 + 2 * (REFUSALS.index(pl) + 10 * (rep // 2)) + rep % 2, pl, "plain"))
     # failpoints: find the number of events on a reference run, then inject at k
     step = 1 if thorough else 6
     for pl in (PLACEMENTS if thorough else ["sibling", "symlink", "stale_output"]):
